@@ -337,7 +337,7 @@ WebSocketMsg WebSocket::receive()
 			break;
 		}
 
-		if (fin)
+		if (fin && opcode < 8) // control frames (ping, pong) may arrive between the fragments of a message
 			haveMsg = true;
 	}
 
